@@ -440,7 +440,7 @@ package phase0
 //@   assigns ghost(n_set_bal)
 
 //@ func ProcessEth1Vote(ctx, spec, epc, state, data) err
-//@   property C18
+//@   property C18 C01
 //@   panics off
 //@   requires ctx != nil
 //@   opt weakcalls
@@ -453,6 +453,10 @@ package phase0
 //@   loop *
 //@     invariant ctx_t >= old(ctx_t) && (old(ctx_seen) || !ctx_seen)
 //@     invariant ctx_t > old(ctx_t) ==> !ctx_cancelled(ctx, old(ctx_t))
+//@   use votes_count_le_len
+//@   assigns ghost(n_vote_append), ghost(last_vote_append), ghost(n_set_eth1), ghost(set_eth1)
+//@   ensures c01_appended: err == nil && state != nil ==> !st_votes_err(state) && n_vote_append == old(n_vote_append) + 1 && last_vote_append == data
+//@   ensures c01_majority: err == nil && spec != nil && state != nil && (spec.EPOCHS_PER_ETH1_VOTING_PERIOD * spec.SLOTS_PER_EPOCH) < 4611686018427387904 ==> n_set_eth1 == old(n_set_eth1) + ite(votes_count(n_vote_append, st_votes(state), data) * 2 > (spec.EPOCHS_PER_ETH1_VOTING_PERIOD * spec.SLOTS_PER_EPOCH), 1, 0) && (n_set_eth1 > old(n_set_eth1) ==> set_eth1 == data)
 
 //@ func ProcessEffectiveBalanceUpdates(ctx, spec, epc, flats, state) err
 //@   property C18 C02
@@ -722,6 +726,7 @@ package phase0
 //@     invariant ctx_t >= old(ctx_t) && (old(ctx_seen) || !ctx_seen)
 //@     invariant ctx_t > old(ctx_t) ==> !ctx_cancelled(ctx, old(ctx_t))
 //@   assigns ghost(n_set_bal)
+//@   assigns ghost(n_vote_append), ghost(last_vote_append), ghost(n_set_eth1), ghost(set_eth1)
 //@   assigns ghost(n_set_mix), ghost(last_set_mix_epoch), ghost(last_set_mix)
 //@   assigns ghost(n_set_lhdr), ghost(set_lhdr)
 //@   assigns ghost(n_viter), ghost(viter_pos), ghost(viter_reg), ghost(n_val_write), ghost(n_wd_write), ghost(n_set_exit), ghost(set_exit_v), ghost(set_exit_val), ghost(n_set_wd), ghost(set_wd_v), ghost(set_wd_val)
